@@ -17,8 +17,11 @@ HDR = """From Coq Require Import ZArith QArith List Bool String.
 From PV Require Import Base.QAux IO.Bytes.
 Import ListNotations.
 (* a file of [len] bytes after the header, record size R, every read checked (theta = R): what may the reader do? *)
-Record tcase := mkTCase { t_R : nat; t_body : nat; t_impl : option nat }.       (* impl: Some n = returned n configurations, None = raised *)
+Record tcase := mkTCase { t_R : nat; t_body : nat; t_stop_on_short_header : bool; t_impl : option nat }.       (* impl: Some n = returned n configurations, None = raised *)
+(* the openQCD loops stop silently when fewer than 4 bytes of a next record are left; read_ms5_xsf reads whole chunks and stops
+   only on an empty read (1..3 stray bytes raise) *)
 Definition model_count (c : tcase) : option nat :=
+  if negb (t_stop_on_short_header c) && Nat.ltb 0 (Nat.modulo (t_body c) (t_R c)) then None else
   match parse (t_R c) (t_R c) (S (t_body c)) (repeat 0%Z (t_body c)) with Raises => None | Records l => Some (List.length l) end.
 (* model verdict: same outcome, except that an observable needs at least five configurations (Obs.__init__) *)
 Definition tcase_model_ok (c : tcase) : bool :=
@@ -138,7 +141,7 @@ def run(ctx):
                     tag, k, H, R, complete, body - complete * R, n, "whose numbers differ from the complete records" if n <= complete else "including a record that is not completely in the file"),
                     {"format": tag, "offset": k, "header": H, "record_size": R, "returned": n, "complete": complete})
                 continue
-            cases.append({"term": "(mkTCase %d%%nat %d%%nat %s)" % (R, body, "None" if n is None else "(Some %d%%nat)" % n),
+            cases.append({"term": "(mkTCase %d%%nat %d%%nat %s %s)" % (R, body, "false" if tag == "ms5_xsf" else "true", "None" if n is None else "(Some %d%%nat)" % n),
                           "descr": {"format": tag, "offset": k, "header": H, "record_size": R, "returned": n, "complete": complete}, "key": "truncation:%s:%s" % (tag, "partial-record-accepted" if (n or 0) > complete else "dropped-or-miscounted"),
                           "what": "%s cut at offset %d: the reader returns %s configurations, %d complete records precede the cut" % (tag, k, n, complete),
                           "replay": {"format": tag, "offset": k, "header": H, "record_size": R, "returned": n, "complete": complete}})
